@@ -60,3 +60,45 @@ Proof.
   rewrite setups_of_fixture_pairs; f_equal.
   destruct (su_injected s); destruct (h_setup_suite (su_hooks s)) as [[a sc]|]; destruct (h_teardown_suite (su_hooks s)); reflexivity.
 Qed.
+
+(* ---------------- test scope ---------------- *)
+Theorem test_schedule_is_what_the_test_needs : forall reg t, registry_ok reg ->
+  (forall f, In f (test_fixtures t) -> reg_mem reg f = true) ->
+  exists fxs, get_fixtures_scheduled_for_test reg t = Ok fxs /\
+    NoDup (map fx_name fxs) /\
+    (forall y, In y (map fx_name fxs) <->
+       (exists f, In f (test_fixtures t) /\ clos_refl_trans name (Edge (reg_find reg)) f y) /\ scope_of reg y ScTest) /\
+    (forall d1 fx t1, fxs = d1 ++ fx :: t1 ->
+       forall y, In y (fparams fx) -> scope_of reg y ScTest -> In y (map fx_name d1)).
+Proof.
+  intros reg t Hok Hreg.
+  destruct (level_spec reg (test_fixtures t) ScTest Hok Hreg) as [fxs [Hs [Hnd [Hiff Hord]]]].
+  exists fxs; split; [exact Hs|split; [exact Hnd|split]].
+  - intros y; rewrite Hiff; unfold reach; reflexivity.
+  - intros d1 fx t1 E; destruct (Hord d1 fx t1 E) as [_ [_ H]]; exact H.
+Qed.
+
+(* a test task that ends with Success has entered: setup_test, the setups of its test-scoped schedule in schedule order, its
+   body, the teardowns of the generator fixtures of the schedule in reverse order, teardown_test *)
+Theorem successful_test_task : forall env p suite t hk fxs,
+  to_res (test_run env p suite t hk fxs) = TkSuccess ->
+  begins (to_main (test_run env p suite t hk fxs)) =
+    (match h_setup_test hk with Some _ => [OSetupTest p] | None => [] end) ++
+    map (fun fx => OFxSetup (fx_name fx)) fxs ++ [OBody p] ++
+    rev (map (fun fx => OFxTeardown (fx_name fx)) (filter fx_generator fxs)) ++
+    (match h_teardown_test hk with Some _ => [OTeardownTest p] | None => [] end).
+Proof.
+  intros env p suite t hk fxs R.
+  destruct (test_run_user_code_order env p suite t hk fxs) as [done [rest [E [B S]]]]; [rewrite R; discriminate|].
+  rewrite (S R) in *; rewrite app_nil_r in E; subst done; rewrite B; unfold test_pairs.
+  assert (T : forall l, teardowns_of (map snd (fixture_pairs l)) = map (fun fx => OFxTeardown (fx_name fx)) (filter fx_generator l)).
+  { induction l as [|fx l IH]; [reflexivity|]. unfold teardowns_of, fixture_pairs in *; simpl.
+    destruct (fx_generator fx); simpl; rewrite IH; reflexivity. }
+  unfold setups_of; simpl flat_map.
+  change (flat_map (fun p0 : pair => sf_owners (fst p0)) (fixture_pairs fxs)) with (setups_of (fixture_pairs fxs)).
+  rewrite setups_of_fixture_pairs.
+  unfold teardowns_of; simpl flat_map.
+  change (flat_map tf_owners (map snd (fixture_pairs fxs))) with (teardowns_of (map snd (fixture_pairs fxs))).
+  rewrite T, rev_app_distr.
+  destruct (h_setup_test hk), (h_teardown_test hk); simpl; rewrite <- ?app_assoc; reflexivity.
+Qed.
